@@ -7,6 +7,7 @@ import (
 	"io"
 	"net/http"
 	"net/url"
+	"syscall"
 
 	"github.com/ada-url/goada"
 	"github.com/philippgille/gokv/leveldb"
@@ -121,3 +122,17 @@ func URLToStringQ(u *url.URL) string {
 
 // IdnaToASCII models x/net/idna.ToASCII on the ASCII host names the harnesses use (identity).
 func IdnaToASCII(s string) (string, error) { return s, nil }
+
+// Statfs models syscall.Statfs: a 100 GiB volume with 50 GiB available (the harness moves the threshold, not the volume).
+func Statfs(path string, buf *syscall.Statfs_t) error {
+	buf.Bsize = 4096
+	buf.Blocks = (100 << 30) / 4096
+	buf.Bavail = (50 << 30) / 4096
+	buf.Bfree = buf.Bavail
+	return nil
+}
+
+// WARCQueueSize models archiver.GetWARCWritingQueueSize: the number of records waiting to be written, as scripted.
+var WARCQueueLen int
+
+func WARCQueueSize() int { return WARCQueueLen }
